@@ -36,13 +36,17 @@ def _ref_pool(world, name):
     may reference what precedes its first successor; file-only names may
     reference every registered name."""
     regs = [d['name'] for d in world['defaults']]
-    if name in regs:
-        return regs[:regs.index(name)]
     succ = [i for i, d in enumerate(world['defaults'])
-            if d['dep'] and d['dep']['name'] == name]
+            if d['dep'] and d['dep']['name'] == name and d['name'] != name]
+    limit = len(regs)
+    if name in regs:
+        limit = regs.index(name)
     if succ:
-        return regs[:min(succ)]
-    return regs
+        limit = min(limit, min(succ))
+    # a predecessor that is also registered is never referenced: an alias
+    # override 'old: rule:<new>' plus a reference to old would be a cycle
+    olds = {d['dep']['name'] for d in world['defaults'] if d['dep']}
+    return [n for n in regs[:limit] if n not in olds or n == name]
 
 
 def gen_rule_for(rng, world, name, depth=None):
@@ -128,7 +132,9 @@ def gen_world(rng, flavour):
         if rng.random() < (0.25 if not d['dep'] else 0.15):
             d['scope'] = rng.choice((['system'], ['project'],
                                      ['system', 'project'], ['domain']))
-        if not d['dep'] and rng.random() < 0.1:
+        if rng.random() < (0.1 if not d['dep'] else 0.15):
+            # scheduled for removal - also legal together with a
+            # deprecated predecessor (renamed in N, going away in P)
             d['removal'] = True
     olds = []
     for d in w['defaults']:
@@ -136,9 +142,27 @@ def gen_world(rng, flavour):
                 d['dep']['name'] not in olds:
             olds.append(d['dep']['name'])
     w['old_names'] = olds
+    if olds and flavour in ('c10', 'c11', 'c12') and rng.random() < 0.15:
+        # the deprecated predecessor is still a registered policy of its
+        # own (registered before or after its successors); its registered
+        # default is not an operator override and must not influence them
+        old = rng.choice(olds)
+        first = min(i for i, d in enumerate(w['defaults'])
+                    if d['dep'] and d['dep']['name'] == old)
+        pos = rng.choice((first, len(w['defaults'])))
+        regs = [d['name'] for d in w['defaults']]
+        w['defaults'].insert(pos, {
+            'name': old, 'dep': None, 'scope': None, 'documented': False,
+            'removal': False,
+            'ast': rast.gen(rng, w['roles'],
+                            [n for n in regs[:min(pos, first)]
+                             if n not in olds],
+                            rng.choice((0, 0, 1)))})
+        w['old_also_registered'] = old
     fo = [n for n in FILE_ONLY if rng.random() < 0.6]
     w['file_only'] = fo
-    w['universe'] = [d['name'] for d in w['defaults']] + olds + fo
+    regnames = [d['name'] for d in w['defaults']]
+    w['universe'] = regnames + [o for o in olds if o not in regnames] + fo
     if not w['universe']:
         w['file_only'] = ['extra']
         w['universe'] = ['extra']
@@ -335,7 +359,8 @@ def gen_len(rng):
     return rng.randint(16, 40)
 
 
-def gen_ops(rng, w, n=None, mix=None, bias=None, main_bias=0.35):
+def gen_ops(rng, w, n=None, mix=None, bias=None, main_bias=0.35,
+            path_bias=None):
     """An operator/enforcement history. Each edit carries its own clock
     delta and concrete content; 'check' compares full decision tables,
     'probe' one decision."""
@@ -359,6 +384,8 @@ def gen_ops(rng, w, n=None, mix=None, bias=None, main_bias=0.35):
             ops.append({'op': 'probe', 'i': rng.randrange(1 << 16)})
             continue
         p = paths[0] if rng.random() < main_bias else rng.choice(paths)
+        if path_bias and rng.random() < path_bias[1]:
+            p = path_bias[0]
         op = {'op': k, 'path': p, 'dt': rng.choice(DTS)}
         if k in ('write', 'replace'):
             if held.get(p) and rng.random() < 0.25:
@@ -667,9 +694,19 @@ class DiskSim:
         p = self.abs(rel)
         fs = self.fs
         exists = rel in self.content
-        if k in ('touch', 'unlink') and not exists:
+        if k in ('touch', 'unlink', 'write_keep') and not exists:
             self.hit('op_skipped')
             return False
+        if k == 'write_keep':
+            # the content changes, the modification time does not
+            m = fs.get_mtime(p)
+            fs.write(p, rast.render(op['rules'], op['style']))
+            fs.set_mtime(p, m)
+            self.content[rel] = op['rules']
+            self.hit('fault:content_changed_mtime_kept')
+            if self.digest is not None:
+                self.digest.add('op', k, rel)
+            return True
         fs.advance(op['dt'])
         if k in ('write', 'empty', 'replace'):
             parent = posixpath.dirname(rel)
